@@ -85,7 +85,7 @@ def shard_generate(args: tuple) -> dict:
     out = {
         "shard": shard, "evaluations": 0, "nontrivial": {}, "labels": Counter(), "samples": [],
         "violations": [], "harness_errors": [], "discarded": Counter(), "budget_exhausted": False,
-        "all_hashes": set(),
+        "all_hashes": set(), "units": 0,
     }
     try:
         mod = _load(prop)
@@ -122,6 +122,7 @@ def shard_generate(args: tuple) -> dict:
                 return
             h = case_hash(d["key"] if d["key"] is not None else case)
             out["all_hashes"].add(h)
+            out["units"] += int((d.get("info") or {}).get("units", 0))
             out["labels"].update(d["labels"])
             if d["nontrivial"]:
                 if h not in out["nontrivial"]:
@@ -275,6 +276,7 @@ def main(argv=None) -> int:
     budget_exhausted = False
     explicit_n = 0
     exhaustive_note = None
+    units = 0
 
     try:
         # ------------------------------------------------------------ explicit cases first
@@ -313,6 +315,7 @@ def main(argv=None) -> int:
                         discarded[d["discard"]] += 1
                         continue
                     labels.update(d["labels"])
+                    units += int((d.get("info") or {}).get("units", 0))
                     if d["nontrivial"]:
                         nontrivial.add(case_hash(d["key"] if d["key"] is not None else d["case"]))
                     for v in d["violations"]:
@@ -320,6 +323,7 @@ def main(argv=None) -> int:
 
         for g in gen_results:
             evaluations += g["evaluations"]
+            units += g.get("units", 0)
             nontrivial.update(g["nontrivial"])
             labels.update(g["labels"])
             samples += g["samples"]
@@ -394,6 +398,8 @@ def main(argv=None) -> int:
             "violation_kinds": {k: len(v) for k, v in buckets.items()} if violations else {},
             "harness_errors": len(harness_errors),
         }
+        if units:
+            cov[getattr(mod, "UNITS_NAME", "units_explored")] = int(units)
         if exhaustive_note:
             cov["exhaustive_part"] = exhaustive_note
         if getattr(mod, "EXHAUSTIVE", False):
